@@ -46,6 +46,7 @@ RUNS = {
         {"name": "K4-read-boundaries", "mode": "k13", "budget": (150, 4000), "nontrivial": r"^rtyp=(117|41) ", "keyfn": "k4"},
         {"name": "K6-client-sizing", "mode": "kneg", "budget": (1500, 30000), "nontrivial": r"ok=1", "keyfn": "generic"},
         {"name": "K4-requests-above-4MiB", "mode": "k13big", "budget": (40, 1200), "nontrivial": r"rlen=41943", "keyfn": "generic"},
+        {"name": "K6-long-xattr-values", "mode": "kxattr", "budget": (120, 4000), "nontrivial": r"whole=1", "keyfn": "generic"},
     ],
     "C18": [
         {"name": "K1-recycling-histories", "mode": "k18", "budget": (1500, 40000), "nontrivial": r"recv1=msg", "keyfn": "k2"},
